@@ -187,7 +187,18 @@ def judge(ctx, sc, seed, replay):
     late_cfg = zlib.crc32(repr(sc["filters"]).encode()) % 2 == 0
     tm = net.timings(INITIAL_DELAY_MIN=sc["window"][0], INITIAL_DELAY_MAX=sc["window"][1], REPETITIONS_MAX=sc["reps"],
                      REPETITIONS_BASE_DELAY=sc["base"], FIND_TTL=sc["find_ttl"] + 4 if late_cfg else sc["find_ttl"])
-    prot, tr = net.make_sd(h.loop, ("10.0.9.100", 30490), timings=tm)
+    own = zlib.crc32(repr(sc["events"][:3]).encode() + b"own") % 3 == 0
+    if own:
+        # the find schedule is the discovery component's own: the stack is built with other timings (those of its offers) and the
+        # component gets a Timings object of its own through its public attribute, as a ServiceInstance takes one
+        import dataclasses
+        other = dataclasses.replace(tm, REPETITIONS_MAX=sc["reps"] + 2, REPETITIONS_BASE_DELAY=sc["base"] * 3 + 0.125,
+                                    INITIAL_DELAY_MIN=0.875, INITIAL_DELAY_MAX=0.875, FIND_TTL=tm.FIND_TTL + 9)
+        prot, tr = net.make_sd(h.loop, ("10.0.9.100", 30490), timings=other)
+        prot.discovery.timings = tm
+        ctx.count("discovery_components_with_a_timings_object_of_their_own")
+    else:
+        prot, tr = net.make_sd(h.loop, ("10.0.9.100", 30490), timings=tm)
     listener = S.ClientServiceListener()
 
     # every other scenario a second part of the application watches the same filters for a while (a status display, say) and
@@ -215,7 +226,7 @@ def judge(ctx, sc, seed, replay):
         if late_cfg:
             # the application tunes the timings by assigning the fields after it has registered what it watches (create_endpoints
             # takes no timings, so assignment is the only way there): what is sent later uses the values in force then
-            prot.timings.FIND_TTL = sc["find_ttl"]
+            (prot.discovery.timings if own else prot.timings).FIND_TTL = sc["find_ttl"]
             ctx.count("find_ttl_assigned_after_the_filters_were_registered")
 
     # with a later start()-again the whole stack is started through the protocol-level start() from the beginning
